@@ -194,8 +194,17 @@ impl Matcher {
         let literals::LiteralsDetails {
             mut literals,
             pre_hir,
-            post_hir,
+            mut post_hir,
         } = literals::get_literals_details(hir);
+
+        // The literals generated from a class come from its bitmap, which does not depend on
+        // the nocase modifier, while literals are compared ignoring case when this modifier is
+        // set. This is wrong for a negated class: `[^a]` generates the literal `A`, which must
+        // not match `a`. This is not an issue if a validator is run on the literals, but if the
+        // literals cover the whole regex, no validator is used: add one in this case.
+        if modifiers.nocase && analysis.has_classes && pre_hir.is_none() && post_hir.is_none() {
+            post_hir = Some(hir.clone());
+        }
 
         // Dedup literals
         let mut new_lits = Vec::with_capacity(literals.len());
